@@ -133,3 +133,30 @@ Definition dinit (fails : list bool) : dstate :=
   mkDs 0 None false [] (map (fun f => mkDt f 0) fails).
 
 Definition dfinished (s : dstate) : bool := forallb (fun th => d_pc th =? 6) (ds_threads s).
+
+(* ---------- concurrent invocations (bind.go invoke: values := baseValues.Copy()) ---------- *)
+(* After init the base collection is only read; every invocation works on its own copy.  A thread
+   is one invocation: a list of operations, each a function of the (read-only) base and of the
+   thread's private collection. *)
+Section Iso.
+  Variable V : Type.
+  Record istate := mkIs {
+    is_base : list V;
+    is_priv : list (list V);                             (* private collection of each invocation *)
+    is_todo : list (list (list V -> list V -> list V))   (* operations each invocation still has to do *)
+  }.
+
+  Definition istep (t : nat) (s : istate) : option istate :=
+    match nth_opt t (is_todo s), nth_opt t (is_priv s) with
+    | Some (op :: rest), Some a =>
+      Some (mkIs (is_base s) (upd_nth t (fun _ => op (is_base s) a) (is_priv s)) (upd_nth t (fun _ => rest) (is_todo s)))
+    | _, _ => None
+    end.
+
+  (* what invocation t computes when it runs alone for n steps *)
+  Fixpoint solo (base : list V) (ops : list (list V -> list V -> list V)) (n : nat) (a : list V) : list V :=
+    match n, ops with
+    | S n', op :: rest => solo base rest n' (op base a)
+    | _, _ => a
+    end.
+End Iso.
